@@ -66,13 +66,20 @@ def make_scenarios(ctx, count):
                     break
                 off += ln
         # (b) boundary-dense single calls
+        prev_call = None
         for _ in range(rng.randint(20, 60)):
             typ = rng.choice([0x0E, 0x0E, 0x11, 0x13, rng.randint(0, 255)])
             d = data_for(glob, typ)
             S = len(d)
             off = rng.choice([0, 1, S - 1, S, S + 1, 0x7FFF, 0x8000, 0xFFFF, P, 2 * P, S - P, S - P - 1, S - P + 1,
                               rng.randint(0, 0xFFFF)])
+            if prev_call is not None and rng.random() < 0.2:
+                # exactly where the previous transfer would continue - but for another property
+                typ = rng.choice([t for t in (0x0E, 0x11, 0x13) if t != prev_call[0]])
+                d = data_for(glob, typ)
+                off = prev_call[1]
             off = max(0, min(0xFFFF, off))
+            prev_call = (typ, off + min(P, max(0, len(d) - off)))
             q = nseq() if rng.random() < 0.95 else 0
             if rng.random() < 0.2:
                 # another station asks while the first one's session is open; its request has its own numbering
